@@ -84,7 +84,7 @@ class SList(Sym):
     ``parts``: None for a base sequence, or -- for a concatenation -- the list of its pieces
     ``('elem', value)`` / ``('base', SList)`` in order (structural normal form, used by str.join).
     """
-    __slots__ = ('length', 'elem', 'uid', 'cache', 'seq', 'immutable', 'parts', 'elem_ty', 'ident')
+    __slots__ = ('length', 'elem', 'uid', 'cache', 'seq', 'immutable', 'volatile', 'parts', 'elem_ty', 'ident')
 
     def __init__(self, length, elem, uid, seq=None, ident=None):
         self.length = length
@@ -93,6 +93,7 @@ class SList(Sym):
         self.cache = {}
         self.seq = seq
         self.immutable = True
+        self.volatile = False    # True: the element function may case-split, elements are not memoised here
         # identity for ghost functions of the list: (family name, index terms) -- an input list is its own
         # family; a list-valued attribute of an indexed / by-id object is identified by the owner's index
         self.ident = ident
